@@ -1167,3 +1167,20 @@ twin('C18', 'c18-twin-guard-form', PYEVENTS,
      "        if delay < 0:\n            raise ValueError(\"'delay' must not be negative\")\n        super().__init__(env)",
      "        if 0 > delay:\n            raise ValueError(\"'delay' must not be negative\")\n        super().__init__(env)",
      'flipped comparison')
+
+
+# ---------------------------------------------- from the mutation sweep (tools/mutsweep.py)
+# one-spot edits that the project's test suite lets pass and that no check reported when the
+# sweep was first run; each is now a rule instance of the property named
+mutant('C13', 'c13-sweep-scale-never-relaxed', PIPE,
+       "        elif self._throughput_scale != 1.0:",
+       "        elif not (self._throughput_scale != 1.0):",
+       'scale:returns-to-1', 'the scale stays below 1 after the congestion has ended')
+mutant('C14', 'c14-sweep-delay-zero-ends', TIMING,
+       "    else:\n        while True:\n            await postpone()\n            yield time.now",
+       "    else:\n        while False:\n            await postpone()\n            yield time.now",
+       'delay:never-ends', 'delay(0) ends the iteration instead of ticking')
+mutant('C15', 'c15-sweep-schedule-drops-inf', LOOP,
+       "            self._activations.push(self.time + delay, Activation(target, signal))",
+       "            if delay != float('inf'):\n                self._activations.push(self.time + delay, Activation(target, signal))",
+       'queues-once-on-every-path', 'a wake-up after an infinite delay is never queued')
